@@ -7,6 +7,7 @@ CONSTANTS
 VIEW View
 INVARIANT Continuity
 INVARIANT ClockExact
+INVARIANT ResyncAtStart
 INVARIANT AntennaClockEqualsStreams
 INVARIANT NoiseInOrder
 INVARIANT DelayAlignment
